@@ -4,6 +4,7 @@
         static : -  |  S:<uhex>:<phex>,<uhex>:<phex>...  |  S:          (empty table)
         cb     : -  |  A  |  R  |  E:<cidhex or *>:<uhex>:<phex>
         first  : T | X | P,<kind>,<lvl 0|1>,<keepalive>,<cidhex>,<clean 0|1>,<N|L>,<uhex>,<phex>
+                 [,<session expiry|->,<receive max|->,<max packet size|->,<topic alias max|->]
      EPI <ok|link|nio:<k>|nproto|nka|io:<k>|other> <timeout|fire|cancel|closed>
      IDS <connect client id hex> <generated id hex>  -> assigned id, id registered with the router,
                                                         id carried by Event::PublishWill
@@ -59,11 +60,17 @@ let parse_first s =
   match String.split_on_char ',' s with
   | [ "T" ] -> Timeout
   | [ "X" ] -> ReadError
-  | [ "P"; k; lvl; ka; cid; clean; l; u; p ] ->
+  | "P" :: k :: lvl :: ka :: cid :: clean :: l :: u :: p :: props ->
+      let o x = if x = "-" then None else Some (n_of_int (int_of_string x)) in
       FirstPacket
         { fp_kind = kind_of k; fp_level_ok = bool_of lvl; fp_keep_alive = n_of_int (int_of_string ka);
           fp_client_id = unhex cid; fp_clean = bool_of clean;
-          fp_login = (if l = "L" then Some { lg_user = unhex u; lg_pass = unhex p } else None) }
+          fp_login = (if l = "L" then Some { lg_user = unhex u; lg_pass = unhex p } else None);
+          fp_props =
+            (match props with
+            | [ se; rm; mp; ta ] when not (se = "-" && rm = "-" && mp = "-" && ta = "-") ->
+                Some { cp_session_expiry = o se; cp_receive_max = o rm; cp_max_packet = o mp; cp_topic_alias_max = o ta }
+            | _ -> None) }
   | _ -> failwith ("bad first read " ^ s)
 
 let io_of = function
